@@ -20,7 +20,7 @@ import re
 from facts import Body
 
 MAX_BLOCKS = 60
-MAX_ASYNC_BLOCKS = 260
+MAX_ASYNC_BLOCKS = 800
 MAX_DEPTH = 3
 _HERE = os.path.dirname(os.path.abspath(__file__))
 _known = None
